@@ -16,8 +16,9 @@ class C06(Prop):
                 # the unbounded close after a bounded close that timed out (which cancels the streams) or after cancel_all_streams(): it must
                 # still wait for everything buffered / in flight (oracle only; concurrency limit 1)
                 Suite("close_again(oracle only)", execgen.HEADER, [execgen.gen_reclose_case(rng) for _ in range(n // 3)], compare=False),
-                # Multi::close with 1-4 listeners consuming at different speeds, on the five non-log Multi kinds (oracle only)
-                Suite("multi_close(oracle only)", execgen.HEADER, [execgen.gen_mcase(rng) for _ in range(n // 2)], compare=False)]
+                # Multi::close with 1-4 listeners consuming at different speeds, on the five non-log Multi kinds: compared field by field
+                # with MExec.v (k independent executor models, one shared cancellation instant) and judged by the oracle
+                Suite("multi_close", execgen.HEADER, [execgen.gen_mcase(rng) for _ in range(n // 2)])]
     def oracle(self, case, recs):
         if case.meta.get("profile") == "mexec": return execgen.oracle_mexec(case, recs)
         return execgen.oracle_c06(case, recs)
